@@ -19,7 +19,7 @@ pub struct Clock {
 
 /// a search that has been told "out of time" this often and still goes on does not stop by itself:
 /// the harness run is ended by a panic (flag `runaway`) instead of never returning
-pub const RUNAWAY_LIMIT: u64 = 50_000;
+pub const RUNAWAY_LIMIT: u64 = 5_000;
 
 thread_local! {
     static CLOCK: RefCell<Option<Clock>> = RefCell::new(None);
